@@ -66,3 +66,22 @@ func (h *Holder) SignLDVP(n *node.Node, p LDVP) (json.RawMessage, error) {
 	}
 	return json.Marshal(signed)
 }
+
+// SignLDDoc signs an arbitrary JSON-LD document with a JsonWebSignature2020 proof by the holder's key (verificationMethod = holder KID).
+func (h *Holder) SignLDDoc(n *node.Node, doc map[string]any, opts proof.ProofOptions) (json.RawMessage, error) {
+	ld := node.Engine[jsonld.JSONLD](n)
+	key, err := jwk.FromRaw(h.Key)
+	if err != nil {
+		return nil, err
+	}
+	_ = key.Set(jwk.KeyIDKey, h.KID)
+	b, _ := json.Marshal(doc)
+	var plain map[string]any
+	_ = json.Unmarshal(b, &plain)
+	signed, err := proof.NewLDProof(opts).Sign(audit.Context(context.Background(), "verif-harness", "verif", "SignLDDoc"), plain,
+		signature.JSONWebSignature2020{ContextLoader: ld.DocumentLoader(), Signer: nutsCrypto.MemoryJWTSigner{Key: key}}, h.KID)
+	if err != nil {
+		return nil, err
+	}
+	return json.Marshal(signed)
+}
